@@ -20,6 +20,27 @@ pub fn run(ctx: &Ctx) -> Report {
         per.push(json!({"alphabet": name, "depth": depth, "states": r.states, "transitions": r.transitions, "per_depth(new_states,transitions)": r.per_depth}));
         rep.absorb(r.acc);
     }
+    // start from a non-initial state too: an old 1100-byte heap atom, an outstanding transparent checkpoint and
+    // 1100 bytes of garbage after it, so that every value-preserving restore class (old bytes, new bytes, inline)
+    // is reached within the depth bound
+    {
+        let al = Alphabet::thin();
+        let prefix = vec![Op::NewAtom(vec![0x62; 1100]), Op::NewAtom(vec![0x00, 0x80]), Op::TCheckpoint, Op::NewAtom(vec![0x63; 1100])];
+        let depth = if ctx.quick() { 3 } else { 4 };
+        let al2 = Alphabet::thin();
+        let r = bfs(ctx, || {
+            let mut st = St::new(template.verif_fork(), u32::MAX as usize);
+            let mut scratch = Acc::default();
+            for op in &prefix {
+                let _ = step(&mut st, op, &al2, Modes::default(), &mut scratch);
+            }
+            st
+        }, "new() NewAtom(1100B) NewAtom(0080) TCheckpoint NewAtom(1100B)", &al, depth, Modes::default(), 40_000_000);
+        rep.states += r.states;
+        rep.transitions += r.transitions;
+        per.push(json!({"alphabet": "thinned, from a pre-populated state with an outstanding transparent checkpoint", "depth": depth, "states": r.states, "transitions": r.transitions}));
+        rep.absorb(r.acc);
+    }
     rep.note("searches", json!(per));
     rep.evaluations = rep.transitions;
     rep.traces = rep.transitions;
